@@ -116,6 +116,12 @@ void Gen::BlockRef(bool reading, NiRef* r, const std::type_info* t, std::streams
 			if (r == bs->SkinInstanceRef()) forceEmptyRef = true;
 }
 
+static std::string longWord(size_t len) {
+	std::string w(len, 'a');
+	for (size_t i = 0; i < len; i++) w[i] = (char)('a' + (i * 7 + len) % 26);
+	return w;
+}
+
 void Gen::StringRef(bool reading, NiStringRef*, std::streamsize) {
 	if (!reading) return;
 	strEvents++;
@@ -183,6 +189,13 @@ void Gen::fill(char* s, size_t n) {
 				const char* w = DICT[rng.below(NDICT)];
 				uint64_t c = strlen(w);
 				pendingChars = w;
+				if (rng.below(24) == 0) {
+					// texts at the limits of the size field and of the buffers readers commonly use
+					static const size_t L1[] = {254, 255}, L2[] = {255, 256, 1024, 1025}, L4[] = {255, 256, 2047, 2048};
+					size_t len = n == 1 ? L1[rng.below(2)] : n == 2 ? L2[rng.below(4)] : L4[rng.below(4)];
+					pendingChars = longWord(len);
+					c = len;
+				}
 				put(&c, n, o);
 				return;
 			}
@@ -281,6 +294,13 @@ void Gen::fill(char* s, size_t n) {
 					const char* w = DICT[rng.below(NDICT)];
 					uint32_t c = (uint32_t)strlen(w);
 					pendingChars = w;
+					if (rng.below(24) == 0) {
+						// inline strings at the longest length the reader takes in one piece (2048) and around other common buffer sizes
+						static const size_t L[] = {2048, 2047, 2046, 255, 256, 1024};
+						size_t len = L[rng.below(6)];
+						pendingChars = longWord(len);
+						c = (uint32_t)len;
+					}
 					put(&c, 4, o);
 				}
 				else {
